@@ -265,7 +265,7 @@ fn walk_mcnk(b: &[u8], k: usize, f: &Frame, w: &mut Walk) -> Option<String> {
 //    parsed once with the library to obtain prototype objects of the repo types that have no `Default`.
 // =====================================================================================================
 
-fn seed_file() -> Vec<u8> {
+fn seed_file(with_mamp: bool, with_mtxp: bool) -> Vec<u8> {
     let mut f = Vec::new();
     put_chunk(&mut f, "MVER", &18u32.to_le_bytes());
     let mhdr_at = f.len();
@@ -312,13 +312,17 @@ fn seed_file() -> Vec<u8> {
     put_chunk(&mut f, "MFBO", &[0u8; 36]);
     slots.push((44, f.len()));
     put_chunk(&mut f, "MTXF", &0u32.to_le_bytes());
-    put_chunk(&mut f, "MAMP", &1u32.to_le_bytes());
-    let mut tp = Vec::new();
-    tp.extend(0u32.to_le_bytes());
-    tp.extend(1.0f32.to_le_bytes());
-    tp.extend(0.5f32.to_le_bytes());
-    tp.extend(0u32.to_le_bytes());
-    put_chunk(&mut f, "MTXP", &tp);
+    if with_mamp {
+        put_chunk(&mut f, "MAMP", &1u32.to_le_bytes());
+    }
+    if with_mtxp {
+        let mut tp = Vec::new();
+        tp.extend(0u32.to_le_bytes());
+        tp.extend(1.0f32.to_le_bytes());
+        tp.extend(0.5f32.to_le_bytes());
+        tp.extend(0u32.to_le_bytes());
+        put_chunk(&mut f, "MTXP", &tp);
+    }
     // one MCNK: 128-byte header, then MCVT MCNR MCLY MCLQ MCCV
     let mcnk_at = f.len();
     let mut m = vec![0u8; 128];
@@ -380,23 +384,55 @@ struct Protos {
 }
 
 fn protos() -> Result<Protos, String> {
-    let seed = seed_file();
-    let w = walk_file(&seed);
-    if !w.problems.is_empty() {
-        return Err(format!("harness bug: the seed file fails the harness's own walker: {:?}", w.problems));
+    // Three seed variants (both markers / MTXP only / MAMP only): each prototype is taken from the first variant that yields it, so that
+    // the harness does not depend on one particular outcome of the library's version detection.
+    let (mut mcnk, mut normal, mut liqv, mut doodad, mut wmo, mut mtxf, mut mamp, mut mtxp, mut thp) = (None, None, None, None, None, None, None, None, None);
+    let mut errors: Vec<String> = Vec::new();
+    for (with_mamp, with_mtxp) in [(true, true), (false, true), (true, false)] {
+        let seed = seed_file(with_mamp, with_mtxp);
+        let w = walk_file(&seed);
+        if !w.problems.is_empty() {
+            return Err(format!("harness bug: the seed file fails the harness's own walker: {:?}", w.problems));
+        }
+        let root = match trap(|| parse_adt(&mut Cursor::new(&seed))) {
+            Err(p) => {
+                errors.push(format!("parse_adt(seed) panicked: {}", p.msg));
+                continue;
+            }
+            Ok(Err(e)) => {
+                errors.push(format!("parse_adt(seed) failed: {e}"));
+                continue;
+            }
+            Ok(Ok(ParsedAdt::Root(r))) => r,
+            Ok(Ok(_)) => {
+                errors.push("seed parsed as a non-root file".into());
+                continue;
+            }
+        };
+        if let Some(m) = root.mcnk_chunks.first() {
+            normal = normal.or(m.normals.as_ref().and_then(|n| n.normals.first().copied()));
+            liqv = liqv.or(m.liquid.as_ref().and_then(|l| l.vertices.first().copied()));
+            mcnk = mcnk.or(Some(m.clone()));
+        }
+        doodad = doodad.or(root.doodad_placements.first().copied());
+        wmo = wmo.or(root.wmo_placements.first().copied());
+        mtxf = mtxf.or(root.texture_flags.clone());
+        mamp = mamp.or(root.texture_amplifier);
+        thp = thp.or(root.texture_params.as_ref().and_then(|t| t.entries.first().copied()));
+        mtxp = mtxp.or(root.texture_params.clone());
     }
-    let parsed = trap(|| parse_adt(&mut Cursor::new(&seed))).map_err(|p| format!("parse_adt(seed) panicked: {}", p.msg))?.map_err(|e| format!("parse_adt(seed) failed: {e}"))?;
-    let ParsedAdt::Root(root) = parsed else { return Err("seed parsed as a non-root file".into()) };
-    let mcnk = root.mcnk_chunks.first().cloned().ok_or("seed: no MCNK parsed")?;
-    let normal = *mcnk.normals.as_ref().and_then(|n| n.normals.first()).ok_or("seed: MCNR not parsed")?;
-    let liqv = *mcnk.liquid.as_ref().and_then(|l| l.vertices.first()).ok_or("seed: MCLQ not parsed")?;
-    let doodad = *root.doodad_placements.first().ok_or("seed: MDDF not parsed")?;
-    let wmo = *root.wmo_placements.first().ok_or("seed: MODF not parsed")?;
-    let mtxf = root.texture_flags.clone().ok_or("seed: MTXF not parsed")?;
-    let mamp = root.texture_amplifier.ok_or("seed: MAMP not parsed")?;
-    let mtxp = root.texture_params.clone().ok_or("seed: MTXP not parsed")?;
-    let thp = *mtxp.entries.first().ok_or("seed: MTXP has no entry")?;
-    Ok(Protos { mcnk, normal, liqv, doodad, wmo, mtxf, mamp, mtxp, thp })
+    let miss = |what: &str| format!("seed: {what} not obtained from any seed variant ({})", errors.join("; "));
+    Ok(Protos {
+        mcnk: mcnk.ok_or_else(|| miss("MCNK"))?,
+        normal: normal.ok_or_else(|| miss("MCNR"))?,
+        liqv: liqv.ok_or_else(|| miss("MCLQ"))?,
+        doodad: doodad.ok_or_else(|| miss("MDDF"))?,
+        wmo: wmo.ok_or_else(|| miss("MODF"))?,
+        mtxf: mtxf.ok_or_else(|| miss("MTXF"))?,
+        mamp: mamp.ok_or_else(|| miss("MAMP"))?,
+        mtxp: mtxp.ok_or_else(|| miss("MTXP"))?,
+        thp: thp.ok_or_else(|| miss("MTXP entry"))?,
+    })
 }
 
 // =====================================================================================================
